@@ -47,12 +47,12 @@ def decUnit (b : Bytes) : Option (Bytes × Bytes) :=
     match rest with
     | h :: x :: rest2 =>
       if h == 35 && (x == 120 || x == 88) then
-        let (ds, r) := rest2.span isHex
+        let (ds, r) := spanP isHex rest2
         match r with
         | s :: r' => if s == 59 && !ds.isEmpty && ds.length ≤ 8 then some (utf8Enc (refCp (hexVal ds)), r') else some ([38], rest)
         | [] => some ([38], rest)
       else if h == 35 then
-        let (ds, r) := (x :: rest2).span isDigit
+        let (ds, r) := spanP isDigit (x :: rest2)
         match r with
         | s :: r' => if s == 59 && !ds.isEmpty && ds.length ≤ 9 then some (utf8Enc (refCp (decVal ds)), r') else some ([38], rest)
         | [] => some ([38], rest)
